@@ -120,6 +120,13 @@ def check(ctx):
             ctx.check(okb, "C05-e", m.qualname + f":bounds [{tag}]", where, "curve_fit receives bounds ((M_min, tau_min), (M_max, tau_max)): lower tuple first, M before tau, as its signature requires", signature="fit_bounds order", bounds=str(b)[:200])
         else:
             ctx.check(b is not None and it.to_nf(b) == nf.sym("self.bounds.M"), "C05-d", m.qualname + f":bounds [{tag}]", where, "with a supplied tau, curve_fit is bounded by the M limits", signature="bounds missing", bounds=str(b)[:120])
+        from .common import check_tolerances
+
+        check_tolerances(
+            ctx, "C05-h", m.qualname + f":curve_fit tolerances [{tag}]", where, a,
+            {"ftol": ("max", "1e-6"), "xtol": ("max", "1e-6"), "gtol": ("max", "1e-6"), "maxfev": ("min", 100), "max_nfev": ("min", 100)},
+            "the least-squares fit keeps its default (1e-8) or explicit tolerances of at most 1e-6 and at least 100 evaluations: noise-free data are fitted to the generating parameters",
+        )
         p0 = a.get("p0")
         regs = [e for e in p.events if e.kind == "int_call" and e.data["callee"] == reg.qualname]
         p0n = it.to_nf(p0) if p0 is not None else {}
